@@ -261,14 +261,14 @@ def rule_R5(ctx, rule="R5"):
     for c in conds:
         if c[0] != "cmp":
             continue
-        a, bb = c[2], c[3]
-        if T.has_call(a, "::len") and T.fold_int(bb) == 9 and ((c[1] == "Lt") != c[4]):
+        o = Q.oriented(c, lambda z: T.has_call(z, "::len"))
+        if o and Q.int_lower_bound(o[0], T.fold_int(o[2])) == 9:
             have9 = True
-        if any(x[0] == "field" and x[2] == "max_frame_size" for x in T.walk(bb)) and ((c[1] == "Gt") != c[4]):
+        m = Q.oriented(c, lambda z: any(x[0] == "field" and x[2] == "max_frame_size" for x in T.walk(z)))
+        if m and m[0] == "Ge":
+            # max_frame_size >= length
             maxok = True
-        if T.has_call(a, "::len") and T.has_call(bb, "saturating_add") and ((c[1] == "Lt") != c[4]):
-            complete = True
-        if T.has_call(a, "::len") and T.has_call(bb, "try_from") and ((c[1] == "Lt") != c[4]):
+        if o and o[0] == "Ge" and (T.has_call(o[2], "saturating_add") or T.has_call(o[2], "try_from") or T.has_call(o[2], "checked_add")):
             complete = True
     ctx.check(have9, rule, "parse_single_frame:header", "needs 9 header bytes", "9-byte frame header guard missing", ctx.loc(b, blk))
     ctx.check(maxok, rule, "parse_single_frame:max", "length <= max_frame_size", "max_frame_size guard missing before the payload copy", ctx.loc(b, blk))
@@ -302,7 +302,7 @@ def rule_R5(ctx, rule="R5"):
     for (rb, j2, term, _c) in TB.return_sites(fp, P):
         if term[0] == "agg" and term[3] == "Some":
             cs2 = Q.canon_conds(P, T.dom_conds(fp, SF, rb))
-            gt0 = any(c[0] == "cmp" and c[1] == "Gt" and c[4] and T.fold_int(c[3]) == 0 and any(x[0] == "field" and x[2] == "stream_id" for x in T.walk(c[2])) for c in cs2)
+            gt0 = any(c[0] == "cmp" and c[1] in ("Gt", "Ne") and c[4] and T.fold_int(c[3]) == 0 and any(x[0] == "field" and x[2] == "stream_id" for x in T.walk(c[2])) for c in cs2)
             hdr = any(c[0] == "variant" and c[2] == "Headers" and c[3] for c in cs2)
             okp = gt0 and hdr
     ctx.check(okp, rule, "find_primary_stream", "first HEADERS frame with stream_id > 0", "primary stream is not selected as the first HEADERS frame on a non-zero stream", ctx.loc(fp))
